@@ -43,5 +43,27 @@ if os.path.exists(notes_path):
     out.append(open(notes_path).read())
 out.append("\n### 12.4 Status of every property (from the last committed evidence)\n")
 out.append(subprocess.run(["python3", os.path.join(root, "tools", "status_table.py")], capture_output=True, text=True).stdout)
+# 12.5 per-property as-built summary from the check configuration and the audited theorem list
+import sys
+sys.path.insert(0, os.path.join(root, "checklib"))
+import props as P
+out.append("\n### 12.5 As built, per property (generated from `checklib/prop_Cxx.py` and the audited theorem lists)\n")
+out.append("For each property: what is claimed, what is compared on every run, what is assumed, and the names of the\n"
+           "Lean theorems that were elaborated and axiom-audited on the last run (`lean/GoImap/Props/Cxx.lean`; each file's\n"
+           "header lists what is proved, what is partial and what is judged by the oracle only).\n")
+for pid in sorted(P.PROPS):
+    c = P.PROPS[pid]
+    out.append("**%s.** %s" % (pid, c["level_text"]))
+    out.append("\n*Tie:* %s" % c["correspondence"])
+    out.append("\n*Cases:* %s" % c["rule"])
+    if c.get("assumptions"):
+        out.append("\n*Assumed / outside the model:* " + "; ".join(c["assumptions"]))
+    out.append("\n*Trusted in addition to §2:* " + ("; ".join(c.get("trusted", [])) or "nothing further") + ". " + c["level_note"])
+    try:
+        ev = json.load(open(os.path.join(root, "evidence", pid + ".json")))
+        names = [t["name"].split(".")[-1] for t in ev["coverage"].get("theorems", [])]
+        out.append("\n*Theorems (%d):* %s\n" % (len(names), ", ".join("`%s`" % n for n in names)))
+    except OSError:
+        out.append("")
 open(os.path.join(root, "DESIGN.md"), "w").write(head + "\n".join(out) + "\n")
 print("DESIGN.md sections 12.2-12.4 regenerated")
